@@ -25,10 +25,10 @@ Conforms(ev) ==
        /\ Total(ev.splits[x].a) /\ Total(ev.splits[x].b)
        /\ L4(ev.items, ev.splits[x].a, ev.splits[x].b)
 
-VARIABLE i
-Init == i \in 1..(IF N < K THEN N ELSE K)
-Next == i + K <= N /\ i' = i + K
-Spec == Init /\ [][Next]_i
+VARIABLE cursor
+Init == cursor \in 1..(IF N < K THEN N ELSE K)
+Next == cursor + K <= N /\ cursor' = cursor + K
+Spec == Init /\ [][Next]_cursor
 
-Check == Conforms(Events[i]) \/ PrintT("MISMATCH " \o ToString(i))
+Check == Conforms(Events[cursor]) \/ PrintT("MISMATCH " \o ToString(cursor))
 =============================================================================
